@@ -160,6 +160,8 @@ def ANCHOR_SAT : Nat := 330
 def MAX_DELAY : Int := 2016
 def INITIAL_COMMITMENT_NUMBER : Nat := 2 ^ 48 - 1
 def U64_LIMIT : Nat := 2 ^ 64
+/-- script numbers are at most 4 bytes: |n| < 2^31 -/
+def SCRIPT_INT_LIMIT : Int := 2 ^ 31
 
 /-! ## Canonical builder -/
 
@@ -320,11 +322,13 @@ def classify [DecidableEq H] (s : Setup) (k : Keys) (o : TxOut H) (ws : Option S
       if h ≠ wsh sc then none else                   -- "script pubkey doesn't match inner script"
       match sc with
       | .toLocal rev delay delayed =>
+        -- (a delay ≥ 2^31 does not parse as a script number at all; it is refused either way)
         if delay < 0 then none else if delay > MAX_DELAY then none
         else if !delayed.ok then none else if !rev.ok then none
         else some (.toBc o.value)
       | .htlcReceived csv _ _ _ hashLen _ cltv =>
         if csv ≠ s.ctype.isAnchors then none         -- falls through every parser: "unknown p2wsh script"
+        else if cltv ≥ SCRIPT_INT_LIMIT then none    -- `read_scriptint` refuses pushes longer than 4 bytes
         else if hashLen ≠ 20 then none else if cltv < 0 then none else some .received
       | .htlcOffered csv _ _ _ _ hashLen =>
         if csv ≠ s.ctype.isAnchors then none
@@ -391,6 +395,9 @@ structure Env where
   chanOk : Bool
   pre : Nat → Info2 → Except Kind Unit
   post : Nat → Info2 → Bool
+  /-- the policy filter maps the tag `policy-commitment` to Error (true for every filter that does not
+      explicitly demote it; `PolicyFilter::new_permissive()` is the documented opt-out) -/
+  mismatchIsError : Bool
   /-- the channel's own funding key and HTLC key (ids of the secret keys) -/
   fundingKey : Key
   htlcKey : Key
@@ -417,7 +424,7 @@ def phase1 [DecidableEq H] (env : Env) (s : Setup) (k : Keys) (tx : CTx H) (ws :
         match canon wsh okey s k (info2.content commitNum) with
         | none => .error .panic
         | some rtx =>
-          if rtx ≠ tx then .error .mismatch            -- policy-commitment "recomposed tx mismatch"
+          if rtx ≠ tx ∧ env.mismatchIsError then .error .mismatch   -- policy-commitment "recomposed tx mismatch"
           else
             let sig := cr.sign env.fundingKey (cr.sighash rtx)   -- signs the *recomposed* tx
             if !env.post commitNum info2 then .error .policy
